@@ -4,10 +4,11 @@ import os
 
 import locks
 import rules_seq
+import rules_ttl
 from analysis import Analysis
 from report import Result
 
-LEVEL = {'C06': 'proof', 'C07': 'proof', 'C09': 'proof', 'C19': 'proof'}
+LEVEL = {'C04': 'other', 'C05': 'other', 'C16': 'other', 'C17': 'other', 'C02': 'other', 'C03': 'other', 'C06': 'proof', 'C07': 'proof', 'C09': 'proof', 'C19': 'proof'}
 _AN = {}
 
 
@@ -84,7 +85,87 @@ def c19(tier, repo):
     return res
 
 
-CHECKS = {'C06': c06, 'C07': c07, 'C09': c09, 'C19': c19}
+def c02(tier, repo):
+    res = Result('C02', 'other')
+    an = analysis(repo)
+    rules_seq.rule_c02(an, res)
+    rules_seq.rule_c02_c03_shared_full_test(an, res, 'C02')
+    res.incomplete += an.incomplete
+    res.explanation = ('Structural clauses of C02 (DESIGN.md 6.C02), decided on every path and loop iteration of every entry point: '
+                       'R-BALANCE (counter, index, free/used partition and every auxiliary structure change by the same amount), '
+                       'R-BOUND (interval argument: from 0 <= size <= capacity and the path tests, the counter stays in range after '
+                       'every change; the eviction trigger is exactly size >= capacity), R-OBSERVERS (size/empty/capacity return the '
+                       'counter / counter==0 / the size of storage that only the constructor sizes, with the capacity argument), '
+                       'R-PURGE-FIRST (ut_map/ut_set purge before consulting the index). The step from these clauses to the '
+                       'behavioural statement is the induction of DESIGN.md section 1 and is not machine-checked.')
+    res.assumptions += ['capacity >= 1', 'representation invariant RI holds at entry (inductive hypothesis)']
+    res.floors = {'R-BALANCE': 100, 'R-BOUND': 60, 'R-OBSERVERS': 28, 'R-PURGE-FIRST': 20, 'R-FULL-TEST': 14}
+    return res
+
+
+def c03(tier, repo):
+    res = Result('C03', 'other')
+    an = analysis(repo)
+    rules_seq.rule_c03(an, res)
+    rules_seq.rule_c02_c03_shared_full_test(an, res, 'C03')
+    res.incomplete += an.incomplete
+    res.explanation = ('R-REMOVE-LICENSE (DESIGN.md 6.C03): every index removal on every path of every entry point is licensed by its '
+                       'path valuation: erase(k) of the found entry; lookup of an expired entry (tlru/utlru); clean/purge guarded by the '
+                       'removed node being expired; or exactly one policy victim, before the bind, on a new-key insert whose path '
+                       'tested size >= capacity (fifo: head node holding a key), leaving the size unchanged. All other paths '
+                       '(non-full inserts, updates, lookups, rejected inserts, absent erases, dynamically_age) contain no removal.')
+    res.assumptions += ['which resident the policy names as victim is decided by C10-C16', 'RI at entry (inductive hypothesis)']
+    res.floors = {'R-REMOVE-LICENSE': 60, 'R-ONE-VICTIM': 35}
+    return res
+
+
+def _simple(pid, fn, explanation, assumptions, floors):
+    def run(tier, repo):
+        res = Result(pid, LEVEL.get(pid, 'other'))
+        an = analysis(repo)
+        fn(an, res)
+        res.incomplete += an.incomplete
+        res.explanation = explanation
+        res.assumptions += assumptions
+        res.floors = floors
+        return res
+    return run
+
+
+c04 = _simple('C04', rules_ttl.rule_c04,
+              'Structural clauses of C04 (DESIGN.md 6.C04): R-LIVE-GUARD (tlru/utlru: every lookup path that yields a value is dominated by '
+              'the strict test now < expire_time of the found entry, with the call\'s own clock sample); ut_map/ut_set: R-PURGE-FIRST + '
+              'R-PURGE-SHAPE (walk from the list head, inclusive test now >= deadline per node, stop at the first live node, erase exactly '
+              'the visited prefix) + ORD-WITNESS (append/move-to-back only, deadline = own clock sample + a ttl no method changes) so that '
+              '"not purged" implies live; R-REFILE-ON-UPDATE (every write re-files the entry under its new deadline). Not decided: the '
+              'induction from these clauses to the behavioural statement.',
+              ['steady_clock is monotone', 'RI at entry (inductive hypothesis)'],
+              {'R-LIVE-GUARD': 20, 'R-PURGE-FIRST': 20, 'R-PURGE-SHAPE': 20, 'R-REFILE-ON-UPDATE': 20, 'ORD-WITNESS': 10})
+c05 = _simple('C05', rules_ttl.rule_c05,
+              'Structural clauses of C05 (DESIGN.md 6.C05): R-DEADLINE-PROV (the term stored as deadline and used as ttl key is now + d with '
+              'now the call\'s single clock sample and d the ttl in force: call parameter / element ttl for tlru, configured field otherwise), '
+              'R-WRITE-RESTARTS-TTL (every UPDATE and BIND row writes the deadline of the written entry exactly once), '
+              'R-WHO-WRITES-DEADLINE (no other operation touches a deadline), R-CFG-ONLY (update_ttl only stores the duration), '
+              'R-REFILE-ON-UPDATE. Early removal is excluded by C03\'s licence rule.',
+              ['steady_clock is monotone', 'now + ttl does not overflow (excluded by the property)'],
+              {'R-DEADLINE-PROV': 30, 'R-WRITE-RESTARTS-TTL': 30, 'R-CFG-ONLY': 1})
+c16 = _simple('C16', rules_ttl.rule_c16,
+              'C16 (DESIGN.md 6.C16): ORD-WITNESS (A): the ttl structure of tlru/utlru is a std::multimap keyed by time_point with the default '
+              'ordering, every write files the slot under exactly the term stored as its deadline and refreshes the stored position '
+              '(R-REFILE-ON-UPDATE), nothing else reorders it, so its head is the entry expiring first; R-PRUNE-TABLE: on every full '
+              'new-key insert path the victim is the ttl head iff now >= deadline(head) (inclusive, own clock sample), else the LRU back.',
+              ['std::multimap with std::less keeps begin() minimal ([associative.reqmts])', 'RI at entry'],
+              {'R-PRUNE-TABLE': 12, 'ORD-WITNESS': 2, 'R-REFILE-ON-UPDATE': 10})
+c17 = _simple('C17', rules_ttl.rule_c17,
+              'C17 (DESIGN.md 6.C17): R-CLEAN-LOOP (tlru/utlru: a loop that continues exactly when the cache is non-empty and the ttl head is '
+              'expired (inclusive), removes exactly that head per iteration, and can only stop when empty or the head is live), ORD-WITNESS, '
+              'R-CLEAN-TALLY (the returned value is the number of removals: a tally incremented once per removing iteration, or the size '
+              'difference of the ttl structure read inside the critical section), and for ut_map/ut_set R-PURGE-FIRST / R-PURGE-SHAPE on every '
+              'insert, erase, lookup and clean.',
+              ['steady_clock is monotone', 'RI at entry'],
+              {'R-CLEAN-LOOP': 2, 'R-CLEAN-TALLY': 4, 'R-PURGE-SHAPE': 20, 'ORD-WITNESS': 10})
+
+CHECKS = {'C04': c04, 'C05': c05, 'C16': c16, 'C17': c17, 'C02': c02, 'C03': c03, 'C06': c06, 'C07': c07, 'C09': c09, 'C19': c19}
 
 
 def run(pid, tier, repo, replay=None):
